@@ -146,12 +146,24 @@ def check_nndvi(case, ctx):
             det.update(X)
             obs = det.drift_state
             ref = np.asarray(det.reference_batch, dtype=float)
+        probe = float(np.random.random())  # where the global generator stands after the call: counts the draws consumed
 
         def stepfn(m, ch):
             np.random.seed(base + i)
-            return m.step(X, ch)
+            o = m.step(X, ch)
+            o["probe"] = float(np.random.random())
+            return o
 
         verdict, outs = fk.advance(stepfn, lambda o: o["degenerate"] or o["state"] == obs)
+        if verdict == "ok" and not outs[0]["degenerate"] and all(o["probe"] != probe for o in outs):
+            c = dict(case)
+            c["items"] = items[: i + 1]
+            raise Violation(
+                "nndvi-random-draws",
+                f"NNDVI({p}) batch {i}: the update did not consume the documented random numbers (sampling_times={p['sampling_times']} re-assignments of the pooled points): generator position differs from the reference computation's",
+                detector="NNDVI",
+                case=c,
+            )
         if verdict == "ok" and outs[0]["degenerate"]:
             ctx.label("truncated-zero-spread-permutations")
             break
